@@ -19,51 +19,105 @@ Definition in_class (cls : list string) (l : level) : bool := existsb (String.eq
 Definition expected (tbl : list level) (cls : list string) : list string :=
   map l_name (filter (in_class cls) tbl).
 
-(* a grammar: whole-string membership in G, minus the carve-outs *)
-Definition grammar_top (G : re) (carves : list re) : top :=
-  t_all (t_full G :: map (fun c => TNot (t_search c)) carves).
+(* a grammar is a CONJUNCTION given as a list: positive conjuncts (whole-string membership in a
+   regex: the line format, a total-length bound) and negative ones (carve-outs: the string does not
+   contain a match of a regex) *)
+Definition grammar_conjs (pos : list re) (carves : list re) : list top :=
+  map t_full pos ++ map (fun c => TNot (t_search c)) carves.
+Definition gtop (Gs : list top) : top := t_all Gs.
+
+Definition is_pos (t : top) : bool := match t with TNot _ => false | _ => true end.
+(* the grammar without its carve-outs: a superset, with a much smaller automaton *)
+Definition weaken (Gs : list top) : top := t_all (filter is_pos Gs).
 
 (* ---- facts decided by the emptiness checker ---- *)
-(* [FLevel Gm l pos]: every string of Gm is matched by level l (pos) / by no means matched (not pos)
-   [FDetect Gm r]:    the pattern r is found in every string of Gm *)
-Inductive fact := FLevel (Gm : top) (l : level) (pos : bool) | FDetect (Gm : top) (r : re).
+(* [FLevel Gs Rs l pos]: every string of the grammar Gs is matched by level l (pos) / is not (not pos)
+   [FDetect Gs Rs r]:    the pattern r is found in every string of the grammar
+   [Rs] is a hint for the search, never part of the statement: regexes claimed to contain every string
+   of the positive part of Gs (the line format with its length counters relaxed to * / +).  The claim
+   is itself decided before it is used. *)
+Inductive fact := FLevel (Gs : list top) (Rs : list re) (l : level) (pos : bool)
+                | FDetect (Gs : list top) (Rs : list re) (r : re).
+
+(* the relaxed grammar: counter-free line format, same carve-outs *)
+Definition relaxed (Gs : list top) (Rs : list re) : top :=
+  t_all (map t_full Rs ++ filter (fun g => negb (is_pos g)) Gs).
+
+(* [G ∧ t] is empty; tried first with the weakened grammar (sound: a superset of G) *)
+(* NB: written with [if], not [||]: vm_compute is call-by-value, [a || b] would run both searches *)
+Definition empty_with (CL : list cset) (atoms : list atom) (fuel : nat) (Gs : list top) (Rs : list re) (t : top) : bool :=
+  if decide_empty CL atoms fuel (TAnd (weaken Gs) t) then true
+  else if (match Rs with
+           | [] => false
+           | _ => if decide_empty CL atoms fuel (TAnd (weaken Gs) (TNot (t_all (map t_full Rs))))
+                  then decide_empty CL atoms fuel (TAnd (relaxed Gs Rs) t) else false
+           end) then true
+  else decide_empty CL atoms fuel (TAnd (gtop Gs) t).
 
 Definition fact_check (CL : list cset) (atoms : list atom) (fuel : nat) (f : fact) : bool :=
   match f with
-  | FLevel Gm l true =>
-      (* Gm inside the conjunction  <=  Gm inside every conjunct *)
-      forallb (fun c => decide_empty CL atoms fuel (TAnd Gm (TNot c))) (level_conjs l)
-  | FLevel Gm l false =>
-      (* Gm disjoint from the conjunction  <=  disjoint from one conjunct, or from all at once *)
-      existsb (fun c => decide_empty CL atoms fuel (TAnd Gm c)) (level_conjs l)
-      || decide_empty CL atoms fuel (TAnd Gm (level_top l))
-  | FDetect Gm r => decide_empty CL atoms fuel (TAnd Gm (TNot (t_search r)))
+  | FLevel Gs Rs l true =>
+      (* G inside the conjunction  <=  G inside every conjunct *)
+      forallb (fun c => empty_with CL atoms fuel Gs Rs (TNot c)) (level_conjs l)
+  | FLevel Gs Rs l false =>
+      (* G disjoint from the conjunction  <=  disjoint from the pattern conjunct alone (cheap, and the
+         usual reason), or from all conjuncts at once *)
+      if empty_with CL atoms fuel Gs Rs (t_search (l_pat l)) then true
+      else empty_with CL atoms fuel Gs Rs (level_top l)
+  | FDetect Gs Rs r => empty_with CL atoms fuel Gs Rs (TNot (t_search r))
   end.
+
+(* the classes of one fact; atoms are computed from them, so every fact is decided over its own
+   (small) alphabet partition *)
+Definition fact_classes (f : fact) : list cset :=
+  match f with
+  | FLevel Gs Rs l _ => top_classes (gtop Gs) ++ flat_map re_classes Rs ++ top_classes (level_top l)
+  | FDetect Gs Rs r => top_classes (gtop Gs) ++ flat_map re_classes Rs ++ top_classes (t_search r)
+  end.
+
+Definition fact_check_auto (fuel : nat) (f : fact) : bool :=
+  let CL := nodup_cs (cset_all :: fact_classes f) [] in
+  fact_check CL (mk_atoms CL) fuel f.
 
 Definition fact_holds (f : fact) : Prop :=
   match f with
-  | FLevel Gm l pos => forall s, all_bytes s = true -> accepts Gm s = true -> level_matches l s = pos
-  | FDetect Gm r => forall s, all_bytes s = true -> accepts Gm s = true -> search_b r s = true
+  | FLevel Gs _ l pos => forall s, all_bytes s = true -> accepts (gtop Gs) s = true -> level_matches l s = pos
+  | FDetect Gs _ r => forall s, all_bytes s = true -> accepts (gtop Gs) s = true -> search_b r s = true
   end.
 
 (* structural equality of facts (to look a needed fact up in the list of decided ones) *)
 Definition level_eqb (a b : level) : bool :=
   String.eqb (l_name a) (l_name b) && re_eqb (l_pat a) (l_pat b) && lbeq (l_ncs a) (l_ncs b).
 
+Fixpoint ltop_eqb (a b : list top) : bool :=
+  match a, b with
+  | [], [] => true
+  | x :: a', y :: b' => top_eqb x y && ltop_eqb a' b'
+  | _, _ => false
+  end.
+
+Fixpoint lre_eqb (a b : list re) : bool :=
+  match a, b with
+  | [], [] => true
+  | x :: a', y :: b' => re_eqb x y && lre_eqb a' b'
+  | _, _ => false
+  end.
+
 Definition fact_eqb (a b : fact) : bool :=
   match a, b with
-  | FLevel g1 l1 p1, FLevel g2 l2 p2 => top_eqb g1 g2 && level_eqb l1 l2 && Bool.eqb p1 p2
-  | FDetect g1 r1, FDetect g2 r2 => top_eqb g1 g2 && re_eqb r1 r2
+  | FLevel g1 h1 l1 p1, FLevel g2 h2 l2 p2 => ltop_eqb g1 g2 && lre_eqb h1 h2 && level_eqb l1 l2 && Bool.eqb p1 p2
+  | FDetect g1 h1 r1, FDetect g2 h2 r2 => ltop_eqb g1 g2 && lre_eqb h1 h2 && re_eqb r1 r2
   | _, _ => false
   end.
 
 (* one C05 obligation: a grammar (classification form [o_G], detection form [o_D] = newline, prompt,
    trailing blank), the table and combined pattern of a constructed driver, the expected class *)
 Record obligation := mkOb {
-  o_label : string; o_tbl : list level; o_combined : re; o_G : top; o_D : top; o_cls : list string }.
+  o_label : string; o_tbl : list level; o_combined : re; o_G : list top; o_D : list top; o_cls : list string;
+  o_GR : list re; o_DR : list re }.    (* relaxed line formats: search hints, see [fact] *)
 
 Definition ob_facts (o : obligation) : list fact :=
-  map (fun l => FLevel (o_G o) l (in_class (o_cls o) l)) (o_tbl o) ++ [FDetect (o_D o) (o_combined o)].
+  map (fun l => FLevel (o_G o) (o_GR o) l (in_class (o_cls o) l)) (o_tbl o) ++ [FDetect (o_D o) (o_DR o) (o_combined o)].
 
 (* an obligation is discharged when each fact it needs is among the decided facts *)
 Definition ob_covered (decided : list fact) (o : obligation) : bool :=
@@ -71,16 +125,23 @@ Definition ob_covered (decided : list fact) (o : obligation) : bool :=
 
 Definition ob_holds (o : obligation) : Prop :=
   forall s, all_bytes s = true ->
-    (accepts (o_G o) s = true -> classify (o_tbl o) s = expected (o_tbl o) (o_cls o)) /\
-    (accepts (o_D o) s = true -> search_b (o_combined o) s = true).
+    (accepts (gtop (o_G o)) s = true -> classify (o_tbl o) s = expected (o_tbl o) (o_cls o)) /\
+    (accepts (gtop (o_D o)) s = true -> search_b (o_combined o) s = true).
 
 (* witness mode (diagnosis when a fact cannot be decided): a shortest string of the grammar on
    which the fact fails, if the search finds one *)
 Definition fact_witness (atoms : list atom) (fuel : nat) (f : fact) : option bytes :=
   match f with
-  | FLevel Gm l true =>
-      fold_right (fun c acc => match witness atoms fuel (TAnd Gm (TNot c)) with Some w => Some w | None => acc end)
+  | FLevel Gs _ l true =>
+      fold_right (fun c acc => match witness atoms fuel (TAnd (gtop Gs) (TNot c)) with Some w => Some w | None => acc end)
                  None (level_conjs l)
-  | FLevel Gm l false => witness atoms fuel (TAnd Gm (level_top l))
-  | FDetect Gm r => witness atoms fuel (TAnd Gm (TNot (t_search r)))
+  | FLevel Gs _ l false => witness atoms fuel (TAnd (gtop Gs) (level_top l))
+  | FDetect Gs _ r => witness atoms fuel (TAnd (gtop Gs) (TNot (t_search r)))
   end.
+
+Definition fact_witness_auto (fuel : nat) (f : fact) : option bytes :=
+  fact_witness (mk_atoms (nodup_cs (cset_all :: fact_classes f) [])) fuel f.
+
+(* the classifier as the driver sees it: an empty list of matching levels is ScrapliPrivilegeError *)
+Definition classify_opt (tbl : list level) (s : bytes) : option (list string) :=
+  match classify tbl s with [] => None | l => Some l end.
